@@ -6,6 +6,7 @@ import (
 	"context"
 	"fmt"
 	"strings"
+	"time"
 
 	sse "github.com/tmaxmax/go-sse"
 	"github.com/tmaxmax/go-sse/vrt"
@@ -38,7 +39,13 @@ type Params struct {
 	Replayer   bool
 	ReplayFail int  // 0: never; k: the k-th Replay call returns an error
 	NoPreInit  bool // leave Joe's initialisation to whichever thread comes first
-	Preempt    int
+	// Shutdown2: a second thread calls Shutdown concurrently as well.
+	Shutdown2 bool
+	// Inner ("finite" / "valid", automatic IDs): a real replayer holding History messages published beforehand;
+	// every subscriber presents the ID of the first one, so its replay consists of real Send/Flush calls.
+	Inner   string
+	History int
+	Preempt int
 }
 
 func (p Params) Name() string {
@@ -46,7 +53,14 @@ func (p Params) Name() string {
 	for _, s := range p.Subs {
 		ss = append(ss, s.String())
 	}
-	return fmt.Sprintf("subs[%s]-canc%v-pub%d-shut%v-rep%v%d-noinit%v-pb%d", strings.Join(ss, ","), p.Canceller, p.NPub, p.Shutdown, p.Replayer, p.ReplayFail, p.NoPreInit, p.Preempt)
+	extra := ""
+	if p.Shutdown2 {
+		extra += "-shut2"
+	}
+	if p.Inner != "" {
+		extra += fmt.Sprintf("-%s-h%d", p.Inner, p.History)
+	}
+	return fmt.Sprintf("subs[%s]-canc%v-pub%d-shut%v-rep%v%d-noinit%v-pb%d%s", strings.Join(ss, ","), p.Canceller, p.NPub, p.Shutdown, p.Replayer, p.ReplayFail, p.NoPreInit, p.Preempt, extra)
 }
 
 type subRec struct {
@@ -60,6 +74,7 @@ type world struct {
 	R       *jh.Replayer
 	PubErrs []error
 	ShutErr error
+	Shut2   error
 	Final   error
 }
 
@@ -72,8 +87,26 @@ func body(p Params) func() {
 			w.R = &jh.Replayer{ReplayFailAt: p.ReplayFail}
 			rep = w.R
 		}
+		switch p.Inner {
+		case "finite":
+			f, _ := sse.NewFiniteReplayer(8, true)
+			w.R = &jh.Replayer{Inner: f}
+			rep = w.R
+		case "valid":
+			v, _ := sse.NewValidReplayer(time.Hour, true)
+			v.Now = func() time.Time { return time.Date(2030, 1, 1, 0, 0, 0, 0, time.UTC) }
+			w.R = &jh.Replayer{Inner: v}
+			rep = w.R
+		}
 		j := &sse.Joe{Replayer: rep}
-		if !p.NoPreInit {
+		if p.Inner != "" {
+			jh.PreInitFor(j, true)
+			for k := 0; k < p.History; k++ {
+				if err := j.Publish(jh.Msg(fmt.Sprintf("h%d", k), ""), []string{"a"}); err != nil {
+					vrt.Fail("history Publish returned %v", err)
+				}
+			}
+		} else if !p.NoPreInit {
 			jh.PreInit(j)
 		}
 		var subs, others []vrt.Handle
@@ -85,7 +118,11 @@ func body(p Params) func() {
 			rec := &subRec{W: wr}
 			w.Subs = append(w.Subs, rec)
 			subs = append(subs, vrt.GoNamed(name, func() {
-				err := j.Subscribe(ctx, sse.Subscription{Client: wr, Topics: []string{"a"}})
+				sub := sse.Subscription{Client: wr, Topics: []string{"a"}}
+				if p.Inner != "" {
+					sub.LastEventID = sse.ID("0")
+				}
+				err := j.Subscribe(ctx, sub)
 				ret.Poke(1) // same scheduler step as Subscribe's last synchronisation operation
 				rec.Returned, rec.Err = true, err
 			}))
@@ -102,6 +139,9 @@ func body(p Params) func() {
 		}
 		if p.Shutdown {
 			others = append(others, vrt.GoNamed("D", func() { w.ShutErr = j.Shutdown(context.Background()) }))
+		}
+		if p.Shutdown2 {
+			others = append(others, vrt.GoNamed("D2", func() { w.Shut2 = j.Shutdown(context.Background()) }))
 		}
 		vrt.Join(others...)
 		w.Final = j.Shutdown(context.Background())
@@ -226,6 +266,26 @@ func Scenarios(tier string) []run.Scenario {
 			}
 		}
 	}
+	// two concurrent Shutdown calls (plus the final one)
+	for _, sc := range []Script{{}, {FailAt: 1}} {
+		for _, canc := range bools {
+			add(Params{Subs: []Script{sc}, Canceller: canc, NPub: 1, Shutdown: true, Shutdown2: true, Preempt: -1})
+		}
+	}
+	add(Params{NPub: 1, Shutdown: true, Shutdown2: true, NoPreInit: true, Preempt: -1})
+	// real replayers with a history: the subscriber's writer fails during the replay (Send, Flush) or after it
+	for _, inner := range []string{"finite", "valid"} {
+		for h := 2; h <= 3; h++ {
+			for _, sc := range scripts(h + 1) {
+				for _, canc := range bools {
+					if canc && tier != "thorough" && h == 3 {
+						continue
+					}
+					add(Params{Subs: []Script{sc}, Canceller: canc, NPub: 1, Shutdown: canc, Inner: inner, History: h, Preempt: -1})
+				}
+			}
+		}
+	}
 	if tier == "thorough" {
 		// three subscribers, one publish, preemption-bounded
 		for _, sc := range scripts(2) {
@@ -237,7 +297,7 @@ func Scenarios(tier string) []run.Scenario {
 
 var Check = &run.Check{
 	ID: "C06", Level: "model_checking",
-	Rule: "Scenarios: 1-3 subscribers whose MessageWriter fails at its k-th Send/Flush call (k enumerated; with and without cancelling the subscriber's context in the same step, as net/http does) x canceller threads x publisher x concurrent Shutdown x replayer whose Replay fails; per scenario all interleavings at synchronisation operations (unbounded with state-key pruning unless the scenario name says pb>=0), all select tie-breaks and all map orders are explored.",
+	Rule: "Scenarios: 1-3 subscribers whose MessageWriter fails at its k-th Send/Flush call (k enumerated; with and without cancelling the subscriber's context in the same step, as net/http does) x canceller threads x publisher x concurrent Shutdown x replayer whose Replay fails; two Shutdown calls racing each other; real FiniteReplayer / ValidReplayer holding 2-3 events, the subscriber resuming from the first one with a writer that fails at any call of the replay or after it; per scenario all interleavings at synchronisation operations (unbounded with state-key pruning unless the scenario name says pb>=0), all select tie-breaks and all map orders are explored.",
 	Assumptions: []string{
 		"schedules are explored at the granularity of synchronisation operations under sequential consistency (DESIGN.md 2.1)",
 		"a panic reaching the top of a goroutine is process death",
